@@ -161,4 +161,39 @@ theorem C18_progress_double_count_witness : (sumPartial 10 4 0 [4, 0]).copy = 2 
 example : ReachesAtEnd 12388 0 [4096, 8192, 100] ∧ sumPartial 1048576 12388 0 [4096, 8192, 100] = forCopyFile 1048576 12388 := by
   refine ⟨by simp [ReachesAtEnd], by decide⟩
 
+/-! ### sums of file lengths saturate (C18-F11) -/
+
+/-- the byte sums of the source are the saturating ones the theorems below are about -/
+theorem C18_byte_sums_saturate : Generated.byteSumsSaturate = true := by decide
+
+theorem satFold (cap : Nat) (l : List Nat) (a : Nat) (ha : a ≤ cap) :
+    l.foldl (satAdd cap) a = min (a + l.sum) cap := by
+  induction l generalizing a with
+  | nil => simp [Nat.min_eq_left ha]
+  | cons x xs ih =>
+    simp only [List.foldl_cons, List.sum_cons]
+    rw [ih (satAdd cap a x) (by unfold satAdd; omega)]
+    unfold satAdd
+    omega
+
+/-- **No length can overflow a sum**: whatever the lengths (sparse files may add up to more than 2^64), a saturating
+sum never exceeds the cap — there is no value at which the addition panics. -/
+theorem C18_saturating_bounded (cap : Nat) (l : List Nat) : l.foldl (satAdd cap) 0 ≤ cap := by
+  rw [satFold cap l 0 (Nat.zero_le _)]; omega
+
+/-- **The assertions about progress sums survive saturation**: `all_work_sent` asserts `total == sent` — two
+saturating sums of lists with the same exact sum (the plan's entries; the chunks actually sent: `C18_progress_chunks_sum`)
+are equal, in whatever order and grouping they were added; `get_progress_marker` asserts `sent ≤ total` — a saturating sum
+is monotone in the exact sum. -/
+theorem C18_saturating_sums_agree (cap : Nat) (l1 l2 : List Nat) :
+    (l1.sum = l2.sum → l1.foldl (satAdd cap) 0 = l2.foldl (satAdd cap) 0) ∧
+    (l1.sum ≤ l2.sum → l1.foldl (satAdd cap) 0 ≤ l2.foldl (satAdd cap) 0) := by
+  rw [satFold cap l1 0 (Nat.zero_le _), satFold cap l2 0 (Nat.zero_le _)]
+  constructor
+  · intro h; rw [h]
+  · intro h; omega
+
+/-- the witness of C18-F11: three files of 2^63-1 bytes add up to more than `u64::MAX`; the saturating sum is the cap -/
+example : [2^63 - 1, 2^63 - 1, 2^63 - 1].foldl (satAdd (2^64 - 1)) 0 = 2^64 - 1 ∧ (2^63 - 1) * 3 > 2^64 - 1 := by decide
+
 end Rj.C18
